@@ -1,5 +1,6 @@
 """C06 - input lookup keys identify calls by alias and captured argument values only."""
 import json
+import random
 
 from lib import pyvals as pv
 from lib.gallina import gstr, gbool, glist, gpair, gopt, gnat
@@ -12,7 +13,13 @@ MAX_DRIVER_SHARDS = 2     # keep neighbouring cases in one interpreter (history-
 ALT_ENVS = [{"PYTHONHASHSEED": "1"}, {"PYTHONHASHSEED": "2"}]
 RULE = ("random calls (alias, capture selection all/none/by position/by name, static or instance, nested args/kwargs in "
         "the faithful domain) + structurally equal variants (dict/kwargs insertion order shuffled, excluded arguments "
-        "changed); each evaluated under PYTHONHASHSEED 0, 1 and 2; exact key text compared with the model; "
+        "changed); each evaluated under PYTHONHASHSEED 0, 1 and 2; exact key text compared with the model; calls that go "
+        "through the real decorator are recorded with an intercepted function that does nothing / grows / drains / edits its "
+        "arguments in place and / or raises (half of the random calls, and a probe stream of mutable captured arguments x "
+        "every body), then made again with fresh equal arguments while that recording is played; a thread probe records and "
+        "plays one operation whose 4 worker threads make 25 intercepted calls each with the SAME argument objects (ordinal "
+        "by position or keyword, shared options positional or keyword, capture all / by position / by name, static and "
+        "instance; interleaving forced by a gate object inside the shared argument, or a 10 us switch interval); "
         "non-trivial = at least one captured container argument or keyword; distinct = distinct case")
 ASSUMPTIONS = ["float repr() is taken from the implementation side (floats are repr texts in the model); every float text "
                "the harness sends is checked against the grammar Values.JsonWf.float_repr_ok that the injectivity theorem "
@@ -21,7 +28,11 @@ ASSUMPTIONS = ["float repr() is taken from the implementation side (floats are r
                "quoted-printable bytes encoding is an oracle (premises of C06_key_injective: invertible, byte strings map "
                "to surrogate-free text; both are theorems for the simple encoder, C06_key_injective_concrete); Coq side "
                "evaluates only byte strings on which the simple encoder is exact (others are checked on the "
-               "implementation side)"]
+               "implementation side)",
+               "the thread probe is implementation-side only as far as concurrency goes (the model is sequential: it checks the "
+               "key of the probe's first call); the gate object lib.pyvals.Gt is a plain object whose __getstate__ waits on a "
+               "barrier (0.5 s timeout) before returning object.__getstate__(self), so its key is that of a plain object; "
+               "without the gate the interleaving is whatever the interpreter does with a 10 us switch interval"]
 THEOREMS = ["C06_key_deterministic_partial", "C06_excluded_args_irrelevant", "C06_kwargs_order_irrelevant",
             "C06_key_injective", "C06_key_injective_concrete", "C06_dumps_injective", "C06_dumps_self_delimiting",
             "C06_flatten_well_formed", "C06_dumps_not_injective_outside_domain_refuted", "C06_flatten_roundtrip",
@@ -57,8 +68,17 @@ def rand_call(rng, sets=False):
             cap.append([pos, name])
     # through the real decorator too, unless the instance itself (position 0) would be captured
     via = static or cap is None or all(p != 0 for p, _ in cap)
-    unser = False
     return dict(alias=alias, cap=cap, static=static, args=args, kwargs=kwargs, via_decorator=via)
+
+
+BODIES = [None, dict(mode="grow"), dict(mode="drain"), dict(mode="edit"), dict(mode="drain", **{"raise": True}),
+          {"raise": True}]
+
+
+def rand_body(rng):
+    """What the intercepted function does when the call goes through the real decorator: nothing (half of the calls),
+    or change its arguments in place and / or raise."""
+    return None if rng.random() < 0.5 else rng.choice(BODIES[1:])
 
 
 def captured(case, args=None, kwargs=None):
@@ -105,6 +125,78 @@ def variants(rng, case):
     return out
 
 
+def mutation_probe(rng, tier):
+    """Calls whose captured arguments are mutable (list / dict / object / set, top level and nested, positional and
+    keyword, capture-all and by position / name, static and instance) through the real decorator with every kind of
+    intercepted-function body: the stored key and the replayed value must be those of the values AT THE CALL."""
+    def obj(items):
+        return {"t": "obj", "cls": "lib.pyvals.Pt", "v": [[k, v] for k, v in items]}
+    vals = [pv.lst([]), pv.lst([pv.s("a"), pv.s("b")]), pv.lst([pv.s("c")]), pv.lst([pv.s("MUT")]),
+            pv.dct([]), pv.dct([("limit", pv.i(10))]), pv.dct([("limit", pv.i(10)), ("zz_mut", pv.i(1))]),
+            obj([("id", pv.i(7))]), obj([("id", pv.i(7)), ("tags", pv.lst([pv.s("x")]))]),
+            pv.tup([pv.lst([pv.i(1), pv.i(2)]), pv.i(3)]), pv.lst([pv.dct([("k", pv.lst([pv.i(1)]))])]),
+            pv.lst([pv.i(3), pv.i(1), pv.i(2)])]
+    for _ in range(4 if tier == "quick" else 40):
+        v = pv.rand_pyval(rng, 3)
+        if v["t"] in ("list", "dict", "obj", "tuple"):
+            vals.append(v)
+    out = []
+    for v in vals:
+        for body in BODIES:
+            shape = rng.randrange(5)
+            if shape == 0:
+                c = dict(alias="mut", cap=None, static=True, args=[v], kwargs=[])
+            elif shape == 1:
+                c = dict(alias="mut", cap=None, static=False, args=[pv.s("SELF"), pv.i(1), v], kwargs=[])
+            elif shape == 2:
+                c = dict(alias="mut", cap=None, static=True, args=[], kwargs=[["opt", v]])
+            elif shape == 3:
+                c = dict(alias="mut", cap=[[1, "b"], [None, "opt"]], static=False, args=[pv.s("SELF"), v, pv.i(2)],
+                         kwargs=[["opt", v]])
+            else:
+                c = dict(alias="mut", cap=[[0, "a"], [2, None]], static=True, args=[v, pv.lst([pv.i(9)]), v], kwargs=[])
+            c.update(variants=[], via_decorator=True, body=body, probe="mutating-body")
+            out.append(c)
+    return out
+
+
+def thread_probe(rng, tier):
+    """One operation whose worker threads make intercepted calls at the same time, all passing the same argument
+    objects (an options dict with lists / dicts / objects) plus the ordinal of the call.  With "gate" the shared
+    argument holds an object that keeps every thread in the middle of its encoding until all of them are there
+    (forced interleaving); without, the interpreter's switch interval is set to 10 us."""
+    def obj(cls, items):
+        return {"t": "obj", "cls": cls, "v": [[k, v] for k, v in items]}
+    out = []
+    # (static, capture selection, ordinal passed by keyword, options passed by keyword)
+    shapes = [(True, None, False, False), (False, None, False, True), (True, "sel", True, False),
+              (True, None, True, True), (False, "sel", False, False), (True, "sel", False, True)]
+    for k in range(12 if tier == "quick" else 36):
+        gate = k % 2 == 0
+        static, cap, ord_kw, as_kw = shapes[(k // 2) % len(shapes)]
+        nf = rng.randrange(8, 30)
+        opts = [("fields", pv.lst([pv.s(x) for x in rng.sample(["id", "name", "depot", "shift", "é"], 3)])),
+                ("ctx", obj("lib.pyvals.Gt" if gate else "lib.pyvals.Pt",
+                            [("user", pv.s("u%d" % k)), ("roles", pv.lst([pv.s("r"), pv.s("w")]))])),
+                ("filters", pv.lst([pv.dct([("field", pv.s("depot")), ("value", pv.s("depot-%d" % i)),
+                                            ("tags", pv.lst([pv.s("a"), pv.i(i)]))]) for i in range(nf)])),
+                ("paging", pv.dct([("limit", pv.i(100)), ("order", pv.lst([pv.s("name"), pv.s("id")]))])),
+                ("more", pv.rand_pyval(rng, 2))]
+        options = pv.dct(opts)
+        args = ([] if static else [pv.s("SELF")]) + ([] if ord_kw else [pv.i(0)]) + ([] if as_kw else [options])
+        kwargs = ([["shard", pv.i(0)]] if ord_kw else []) + ([["opt", options]] if as_kw else [])
+        if cap == "sel":      # the ordinal and the options selected by position / by name, wherever they are
+            o_pos = (0 if static else 1) + (0 if ord_kw else 1)
+            cap = [[None, "opt"] if as_kw else [o_pos, "opt"], [None, "shard"] if ord_kw else [0 if static else 1, "shard"]]
+        conc = dict(threads=4, calls=25, gate=gate)
+        if ord_kw:
+            conc["vary_kw"] = "shard"
+        out.append(dict(alias="shard", cap=cap, static=static, args=args, kwargs=kwargs, variants=[],
+                        via_decorator=static or cap is None or all(p != 0 for p, _ in cap),
+                        conc=conc, probe="threads"))
+    return out
+
+
 def generate(rng, tier):
     n = 500 if tier == "quick" else 6000
     cases = []
@@ -112,6 +204,12 @@ def generate(rng, tier):
         c = rand_call(rng)
         c["variants"] = variants(rng, c)
         cases.append(c)
+    brng = random.Random(rng.random())      # own stream: the cases above are those of the earlier rounds
+    for c in cases:
+        if c["via_decorator"]:
+            c["body"] = rand_body(brng)
+    cases += mutation_probe(brng, tier)
+    cases += thread_probe(brng, tier)
     # near-collision families: same alias, arguments that differ only in type / nesting / position
     fam = [[pv.i(1)], [pv.b(True)], [{"t": "float", "r": "1.0"}], [pv.s("1")], [pv.lst([pv.i(1)])], [pv.tup([pv.i(1)])],
            [pv.i(1), pv.i(2)], [pv.lst([pv.i(1), pv.i(2)])], [pv.tup([pv.i(1), pv.i(2)])], [pv.s("1, 2")],
@@ -215,6 +313,13 @@ def explain(case, obs):
 _batch = {}
 
 
+def conc_summary(cc):
+    counts = {f: cc.get(f) for f in ("n_calls", "n_expected", "n_missing", "n_extra", "replay_answered", "replay_live",
+                                     "n_replay_wrong", "rec_errors", "replay_errors")}
+    ex = {f: [str(x)[:400] for x in (cc.get(f) or [])[:1]] for f in ("missing", "extra", "replay_wrong")}
+    return json.dumps(counts, ensure_ascii=False)[:600] + " e.g. " + json.dumps(ex, ensure_ascii=False)
+
+
 def direct(case, obs):
     if "driver_exception" in obs:
         return [("driver", obs["driver_exception"])]
@@ -232,6 +337,28 @@ def direct(case, obs):
     elif "dec_saved" in obs and obs["dec_key"] != key:
         fails.append(("decorator-key-differs", "key stored by the decorator %r differs from the key builder's %r" %
                       (obs["dec_key"], key)))
+    # (i') ... and is the key the same call is looked up under when that recording is played: it receives what the
+    # intercepted function returned / raised, whatever that function did to its arguments
+    if obs.get("dec_saved") and obs.get("dec_key") is not None:
+        want = ["raised", "CustomError"] if (case.get("body") or {}).get("raise") else ["value", "R"]
+        if obs.get("dec_nkeys") != 1:
+            fails.append(("decorator-key-differs", "one intercepted call left %r input keys in its recording" %
+                          (obs.get("dec_nkeys"),)))
+        if obs.get("replay") != want or obs.get("replay_live") != 0:
+            fails.append(("replay-misses-own-call", "the call made again with equal arguments while playing its own recording "
+                          "got %r (live executions %r), recorded was %r; stored key %r" %
+                          (obs.get("replay"), obs.get("replay_live"), want, obs.get("dec_key"))))
+    cc = obs.get("conc")
+    if cc is not None:
+        bad = [f for f in ("rec_errors", "missing", "extra", "replay_errors", "replay_wrong") if cc.get(f)]
+        if not cc.get("saved") and key is not None:
+            bad.append("saved")
+        if cc.get("saved") and (cc.get("replay_live") != 0 or cc.get("replay_answered") != cc.get("n_calls")):
+            bad.append("replay_live/answered")
+        if bad:
+            fails.append(("concurrent-key-differs", "calls made by %d threads at the same time with shared argument objects "
+                          "are not stored / looked up under the keys the same calls get one after the other (%s): %s" %
+                          (case["conc"]["threads"], ", ".join(bad), conc_summary(cc))))
     for k, a in enumerate(obs.get("alt", [])):
         if a is not None and "dec_saved" in obs and a.get("dec_key") != obs.get("dec_key") and not setty:
             fails.append(("hash-seed-dependent", "decorator key differs under PYTHONHASHSEED=%s: %r vs %r" %
@@ -263,6 +390,9 @@ def features(case):
         f.add("probe:" + case["probe"])
     for x in case["args"]:
         f.add("arg:" + x["t"])
+    if case.get("via_decorator"):
+        b = case.get("body") or {}
+        f.add("body:%s%s" % (b.get("mode") or "pure", "+raise" if b.get("raise") else ""))
     return f
 
 
@@ -272,7 +402,7 @@ def nontrivial(case):
 
 MANIFEST = dict(
     design_ref='6/C06',
-    text="Coq theorems over all aliases, capture selections and tree-shaped argument values: the key text is a function of alias and captured values up to dict/attribute insertion order (deterministic_partial: sets carry their iteration order), arguments excluded from capture and kwargs order are irrelevant, keys are injective on (alias, captured values) for aliases without '=' and captured values in the domain vdom = wf (tree shaped, distinct unreserved keys, no lone surrogates) and leaves_ok (float texts in the float.__repr__ grammar, bytes < 256), given only that the quoted-printable oracle is invertible and maps byte strings to surrogate-free text (both proved for the concrete encoder: C06_key_injective_concrete has no oracle premise); nothing is assumed about json.dumps any more: its injectivity and the self-delimiting text of arrays/objects are proved on the well-formed trees jwf via a verified parser (parse_value fuel (dumps j ++ rest) = Some (j, rest)), flatten maps the value domain into jwf, and witnesses show both facts fail outside jwf; flatten/restore round-trip on the faithful domain; the set-order clause is refuted with a witness (known finding F06). Model (select, flatten, dumps, ikey) tied to /repo on every run by comparing the exact key text of _input_interception_key, and the key found in a recording made through the real decorators, with the model's; direct predicate: same call under two other PYTHONHASHSEED values gives the same key, and no two distinct (alias, captured args) share a key.",
+    text="Coq theorems over all aliases, capture selections and tree-shaped argument values: the key text is a function of alias and captured values up to dict/attribute insertion order (deterministic_partial: sets carry their iteration order), arguments excluded from capture and kwargs order are irrelevant, keys are injective on (alias, captured values) for aliases without '=' and captured values in the domain vdom = wf (tree shaped, distinct unreserved keys, no lone surrogates) and leaves_ok (float texts in the float.__repr__ grammar, bytes < 256), given only that the quoted-printable oracle is invertible and maps byte strings to surrogate-free text (both proved for the concrete encoder: C06_key_injective_concrete has no oracle premise); nothing is assumed about json.dumps any more: its injectivity and the self-delimiting text of arrays/objects are proved on the well-formed trees jwf via a verified parser (parse_value fuel (dumps j ++ rest) = Some (j, rest)), flatten maps the value domain into jwf, and witnesses show both facts fail outside jwf; flatten/restore round-trip on the faithful domain; the set-order clause is refuted with a witness (known finding F06). Model (select, flatten, dumps, ikey) tied to /repo on every run by comparing the exact key text of _input_interception_key, and the key found in a recording made through the real decorators, with the model's; direct predicate: same call under two other PYTHONHASHSEED values gives the same key, and no two distinct (alias, captured args) share a key; the key the decorator stores is the key of the argument values AT THE CALL whatever the intercepted function then does to them (grow / drain / edit in place, raise), and the same call made again while that recording is played receives the recorded outcome without a live execution; calls made at the same time by 4 worker threads of one operation with shared argument objects are stored and looked up under exactly the keys the same calls get one after the other.",
     note='Trusted: Coq kernel + vm_compute; hand-written model of jsonpickle 0.9.3 flatten + json.dumps on the tree domain; quoted-printable for bytes is an oracle (two premises, theorems for the simple encoder); the float grammar float_repr_ok describes float.__repr__ on CPython with float_repr_style=short (validated against the interpreter, enforced on every float the harness sends); correspondence harness. One clause (sets) is a known finding, reported as KNOWN-FINDING.',
     technique='Coq proof (induction over value trees, sorting/permutation lemmas, verified JSON parser for the printer) + exact key-text correspondence by vm_compute + two-hash-seed differential run',
 )
